@@ -5,7 +5,7 @@ CONSTANTS
   MaxRead = 2
   KF_FastInvertSkipsStopLine = FALSE
   KF_ReaderByteCountIgnoresPartial = FALSE
-  MaxLines = 5
+  MaxLines = 4
   Bodies <- BodiesMX
   CtxMax = 2
   Terms = {"lf"}
@@ -14,6 +14,6 @@ CONSTANTS
   Caps = {2}
   Flags = {"inv", "pass", "stopnm"}
   Bins = {"none"}
-  PlanKinds = {}
+  PlanKinds = {"stop", "err", "fault"}
 INVARIANTS BufInv ModelOK Emitted
 VIEW View
